@@ -54,6 +54,25 @@ Theorem C06_udp_checksum src dst sport dport payload :
 Proof. exact (@udp_segment_checksum src dst sport dport payload). Qed.
 Print Assumptions C06_udp_checksum.
 
+(** ... and its checksum field is never zero: a checksum that computes to zero goes out as 0xffff (RFC 768; RFC 8200
+    section 8.1, where a zero field makes the receiver discard the datagram).  Finding F11: the unrepaired code sent the zero. *)
+Theorem C06_udp_checksum_nonzero src dst sport dport payload :
+  Forall byte_ok src -> Forall byte_ok dst -> (length src <= 16)%nat -> (length dst <= 16)%nat ->
+  Forall byte_ok payload -> (length payload <= 1000)%nat ->
+  let seg := udp_segment src dst sport dport payload in
+  1 <= be16 (nth 6 seg 0) (nth 7 seg 0) <= 65535.
+Proof. exact (@udp_segment_checksum_nonzero src dst sport dport payload). Qed.
+Print Assumptions C06_udp_checksum_nonzero.
+
+(** non-vacuity: the substitution is reachable - this IPv6 probe's checksum computes to zero and is sent as 0xffff *)
+Example C06_udp6_zero_checksum_witness :
+  let src := [32; 1; 13; 184; 0; 0; 0; 0; 0; 0; 0; 0; 0; 0; 0; 2] in
+  let dst := [32; 1; 13; 184; 0; 1; 0; 0; 0; 0; 0; 0; 0; 0; 0; 7] in
+  let pl := repeat_magic (Z.to_nat (5 + 29)) magic in
+  cksum (u16b 1121 ++ u16b 33434 ++ u16b (8 + len pl) ++ [0; 0] ++ pl) (pseudo src dst 17 (8 + len pl)) = 0
+  /\ (nth 46 (udp6_probe src dst 1121 33434 29) 0, nth 47 (udp6_probe src dst 1121 33434 29) 0) = (255, 255).
+Proof. vm_compute. split; reflexivity. Qed.
+
 (** the ICMPv6 echo body verifies against the IPv6 pseudo-header *)
 Theorem C06_icmp6_checksum src dst echo_id ttl :
   Forall byte_ok src -> Forall byte_ok dst -> (length src <= 16)%nat -> (length dst <= 16)%nat -> byte_ok ttl ->
